@@ -141,7 +141,8 @@ def bag_matches(exp_rows, obs_rows):
     return rec(0)
 
 
-DEV_SEQ = ["count_counts_nulls", "expr_arg_is_first_column", "expr_key_shown_as_null", "having_looked_up_in_select_list", "sum_of_nothing_is_zero"]
+DEV_SEQ = ["count_counts_nulls", "expr_arg_is_first_column", "expr_key_shown_as_null", "having_looked_up_in_select_list",
+           "minmax_of_text_is_null", "sum_of_nothing_is_zero"]
 
 
 def dev_rank(devs):
@@ -180,7 +181,7 @@ def plain_bag(rows):
         if isinstance(v, float) and v.is_integer():
             return int(v)
         return v
-    return sorted((json.dumps([nv(v) for v in r]) for r in rows))
+    return sorted((json.dumps([nv(ordagg.code_of(v)) for v in r]) for r in rows))
 
 
 def judge(case, res, variant="plain"):
@@ -194,6 +195,9 @@ def judge(case, res, variant="plain"):
     if "rows" not in r:
         return "missing", None
     obs = ordagg.norm_rows(r["rows"])
+    if q["x"] == "s":
+        # MIN/MAX of the TEXT column: compare through the order-preserving encoding of lib/ordagg.py
+        obs = [o[:-1] + [ordagg.code_of(o[-1])] if o else o for o in obs]
     exp = expected_rows(q, case["groups"])
     if bag_matches(exp, obs):
         return "ok", None
@@ -228,7 +232,7 @@ def judge(case, res, variant="plain"):
         cells = ([("COUNT(*)", g["cnt"], o[nk])] if q["wc"] else []) + [(q["f"], g["v"], o[-1])]
         for f, e, ov in cells:
             if not value_matches(f, e, ov):
-                arg = "*" if f == "COUNT(*)" else ("expr" if q["x"] == "a+b" else "col")
+                arg = "*" if f == "COUNT(*)" else ("expr" if q["x"] == "a+b" else "textcol" if q["x"] == "s" else "col")
                 cls = g["cls"] if f == q["f"] else "rows"
                 return "cell", "%s(%s)|%s|%s->%s" % (f.replace("(*)", ""), arg, cls, spec_class(f, e, g["cnt"]), value_class(ov, g["cnt"]))
     return "groups:unmatched", None
@@ -284,7 +288,7 @@ def abstract(case, variant):
         parts.append("where" if q["w"] == "idge2" else "where-none-qualifies")
     if q["g"]:
         parts.append("group=%d:%s" % (len(q["g"]), "/".join(sorted({"expr" if e == "a+b" else "col" for e in q["g"]}))))
-    parts.append("%s(%s)" % (q["f"].replace("(*)", ""), "*" if q["x"] == "*" else "expr" if q["x"] == "a+b" else "col"))
+    parts.append("%s(%s)" % (q["f"].replace("(*)", ""), "*" if q["x"] == "*" else "expr" if q["x"] == "a+b" else "textcol" if q["x"] == "s" else "col"))
     if q["wc"]:
         parts.append("+COUNT(*)")
     if q["h"] != "none":
@@ -337,7 +341,9 @@ def nonvacuity(cases):
             c["having_removes_everything"] += 1
         if k["alts"]:
             c["has_named_deviation_alternative"] += 1
-    need = ["fn_COUNT(*)", "fn_COUNT", "fn_SUM", "fn_AVG", "fn_MIN", "fn_MAX", "groupkeys_0", "groupkeys_1", "groupkeys_2", "group_by_expression",
+    if any(k["q"]["x"] == "s" and k["q"]["f"] in ("MIN", "MAX") for k in cases):
+        c["minmax_of_text"] = sum(1 for k in cases if k["q"]["x"] == "s" and k["q"]["f"] in ("MIN", "MAX"))
+    need = ["minmax_of_text", "fn_COUNT(*)", "fn_COUNT", "fn_SUM", "fn_AVG", "fn_MIN", "fn_MAX", "groupkeys_0", "groupkeys_1", "groupkeys_2", "group_by_expression",
             "expression_argument", "having_none", "having_cnt>1", "having_sumb>=1", "where_none", "where_idge2", "where_idlt0", "src_table",
             "src_join", "tab_t", "tab_u", "tab_e", "tab_n", "two_aggregates", "empty_input", "empty_input_one_row", "cls_all_null",
             "cls_some_null", "cls_no_null", "cls_no_rows", "null_group_key", "null_group_key_with_several_rows", "having_removes_everything"]
